@@ -267,6 +267,21 @@ func HandleSetFileInfo(cc *hotline.ClientConn, t *hotline.Transaction) (res []ho
 	if err != nil {
 		return res
 	}
+	// A request can carry a comment and a new name.  Refuse it before changing anything if the
+	// rename it asks for is not allowed, so that a refused request leaves the comment untouched.
+	if t.GetField(hotline.FieldFileNewName).Data != nil {
+		switch mode := fi.Mode(); {
+		case mode.IsDir():
+			if !cc.Authorize(hotline.AccessRenameFolder) {
+				return cc.NewErrReply(t, "You are not allowed to rename folders.")
+			}
+		case mode.IsRegular():
+			if !cc.Authorize(hotline.AccessRenameFile) {
+				return cc.NewErrReply(t, "You are not allowed to rename files.")
+			}
+		}
+	}
+
 	if t.GetField(hotline.FieldFileComment).Data != nil {
 		switch mode := fi.Mode(); {
 		case mode.IsDir():
